@@ -1,10 +1,22 @@
 #!/venv/bin/python
 """Which checks catch which seeded change: applies each seeded/<id>/patch.diff to a scratch copy and runs ALL 20 quick checks.
-Writes selftest/matrix.json and prints one line per change."""
+Writes selftest/matrix.json and prints one line per change.
+  selftest/matrix.py [ids,comma,separated] [--props all|own+broad]     (own+broad = the change's own property + the seven widest checks)"""
 import concurrent.futures, json, os, shutil, subprocess, sys, tempfile
 
 VERIF = os.path.dirname(os.path.dirname(os.path.abspath(__file__)))
 PROPS = [f"C{i:02d}" for i in range(1, 21)]
+
+
+BROAD = ["C01", "C02", "C06", "C14", "C17", "C18", "C19"]  # the widest workloads: run next to the change's own property by --props own+broad
+MODE = "all"
+
+
+def props_for(name):
+    if MODE == "all":
+        return PROPS
+    own = json.load(open(os.path.join(VERIF, "seeded", name, "meta.json")))["property"]
+    return sorted(set([own] + BROAD))
 
 
 def run(name):
@@ -17,7 +29,7 @@ def run(name):
             return name, {"error": p.stdout + p.stderr}
         env = dict(os.environ, VMON_REPO=copy, VMON_OUT=os.path.join(d, "out"), VMON_WORKERS="4")
         res = {}
-        for pid in PROPS:
+        for pid in props_for(name):
             q = subprocess.run([os.path.join(VERIF, "check"), pid, "quick"], env=env, capture_output=True, text=True, timeout=3600)
             res[pid] = q.returncode
         return name, res
@@ -26,6 +38,11 @@ def run(name):
 
 
 def main():
+    global MODE
+    if "--props" in sys.argv:
+        k = sys.argv.index("--props")
+        MODE = sys.argv[k + 1]
+        del sys.argv[k:k + 2]
     names = sorted(n for n in os.listdir(os.path.join(VERIF, "seeded")) if os.path.exists(os.path.join(VERIF, "seeded", n, "patch.diff")))
     if len(sys.argv) > 1:
         names = [n for n in names if n in sys.argv[1].split(",")]
